@@ -396,7 +396,7 @@ PairSeqs == {<<<<k, o>>>> : k \in Keys, o \in PoolObjs} \cup {<<<<"a", o1>>, <<"
 Next ==
  /\ Len(hist) < Depth
  /\
-  \/ \E g \in Gs, k \in Keys, o \in Os : DgSet(g, k, o)
+  \/ \E g \in Gs, k \in Keys, o \in (IF ObjUse = {} THEN Os ELSE ObjUse \cap Os) : DgSet(g, k, o)
   \/ \E g \in Gs, k \in Keys : DgDel(g, k) \/ DgPop(g, k) \/ DgGet(g, k)
   \/ \E g \in Gs : DgClear(g) \/ DgCopy(g) \/ DgDeepCopy(g)
   \/ \E g \in Gs, ps \in PairSeqs : DgUpdate(g, ps)
